@@ -20,6 +20,8 @@ def make_cases(rng, tier, budget):
         (False, True): lambda p: [["touch", p]],
         (True, False): lambda p: [["rewrite", p, "ba"]],     # same size, same mtime
     }
+    # content changes that a sloppy hash could absorb: trailing NUL bytes, a longer file with a repeated tail
+    tricky = [lambda p: [["rewrite", p, "ab\u0000\u0000\u0000"]], lambda p: [["rewrite", p, "ab" + "ab" * 40000]]]
     for _ in range(n):
         for cmp_ in ("HASH", "METADATA"):
             for what in ("input", "output", "readback"):
@@ -43,6 +45,16 @@ def make_cases(rng, tier, budget):
                                 ["build", {}, root], ["build", {}, root]]
                         out.append({"cache": ["cache"], "name": "n", "funcs": funcs, "history": hist,
                                     "tag": {"cmp": cmp_, "what": what, "nested": nested, "content_changed": cc, "meta_changed": mc}})
+    for mk in tricky:
+        for what in ("input", "output"):
+            inp, outp = ["tin"], ["t", "o"]
+            funcs = {"f": {"*": [["ask", "r", "read", inp, "HASH"], ["write", ["lit", "ab"]], ["ret", ["lit", 1]]]},
+                     "g": {"*": [["ask", "r2", "get_size", ["tin"]], ["ret", ["lit", 2]]]}}
+            root = [["build_file", "x", outp, "HASH", "f", [], {}], ["ret", ["var", "x"]]]
+            target = inp if what == "input" else outp
+            out.append({"cache": ["cache"], "name": "n", "funcs": funcs,
+                        "history": [["mutate", [["write", inp, "ab"]]], ["build", {}, root], ["mutate", mk(target)], ["build", {}, root], ["build", {}, root]],
+                        "tag": {"cmp": "HASH", "what": what, "nested": False, "content_changed": True, "meta_changed": False}})
     # plus random histories that use both modes and same-meta rewrites of HASH-compared files only
     g = gen.Gen(rng, dict(hash=0.5))
     for _ in range((20 if tier == "quick" else 200) * budget):
